@@ -22,6 +22,8 @@ func init() {
 			"Does not decide: lock re-entry of teardown paths (SetState holds mu while ReleaseQueue may reach Close), nor panics in goroutines other than the read loop.",
 		Fixtures: []string{"guardcut"},
 		Variants: []Variant{
+			{Name: "context-cancelled-after-teardown", File: pkgNetmc + "/connection.go",
+				Old: "\t\tc.cancelCtx()\n\t\terr = c.c.Close()", New: "\t\tdefer c.cancelCtx()\n\t\terr = c.c.Close()", Expect: "teardown-order"},
 			{Name: "disconnected-outside-once", File: pkgNetmc + "/connection.go",
 				Old:    "\tif alreadyClosed {\n\t\terr = ErrClosedConn\n\t}",
 				New:    "\tif alreadyClosed {\n\t\terr = ErrClosedConn\n\t\tif sh := c.ActiveSessionHandler(); sh != nil {\n\t\t\tsh.Disconnected()\n\t\t}\n\t}",
@@ -110,6 +112,7 @@ func runC44(c *Ctx) {
 			}
 			c.CheckAt("teardown-once", want+"-inside-once@closeKnown", c.P.Pos(ck.Pos()), found, "context cancellation and socket close must happen inside the once")
 		}
+		checkCancelBeforeClose(c, onceClosures)
 		// a second Close reports ErrClosedConn
 		c.CheckAt("teardown-once", "Close→closeKnown", c.P.Pos(ck.Pos()), func() bool {
 			cl := c.P.Func(pkgNetmc + ":(*minecraftConn).Close")
